@@ -269,7 +269,7 @@ theorem IsSeq.verOf {l : List OpDoc} {v : Nat} (h : IsSeq l (v + 1)) : verOf l v
   rw [← List.getLast?_map, h, List.getLast?_range']
   split
   · next h0 => simp [h0]
-  · simp; omega
+  · simp <;> omega
 
 theorem sortOps_sorted {l : List OpDoc} (h : l.Pairwise (fun a b => a.sseq ≤ b.sseq)) : SL.sortOps l = l := by
   induction l with
@@ -429,20 +429,22 @@ theorem upTo_cases (st : Store) (duid colName : String) (e : Nat) :
         s.sseq = verOf (opsUpTo st duid (base st doc).2 e) (base st doc).2) = false ∧
       st.updateSnapshotUpTo duid colName e =
         withSnap st doc duid colName (verOf (opsUpTo st duid (base st doc).2 e) (base st doc).2) r := by
-  rw [upTo_eq]
+  generalize hX : st.updateSnapshotUpTo duid colName e = X
+  rw [upTo_eq] at hX
   cases hg : st.getDatatype duid with
-  | none => exact Or.inl rfl
+  | none => rw [hg] at hX; exact Or.inl hX.symm
   | some doc =>
-    simp only []
-    rcases hr : (base st doc).1.receive ((opsUpTo st duid (base st doc).2 e).map (·.op)) with ⟨r, (_ | c | w)⟩
-    · simp only []
-      cases ha : st.snapshots.any (fun s => s.duid = duid ∧
-          s.sseq = verOf (opsUpTo st duid (base st doc).2 e) (base st doc).2)
-      · refine Or.inr ⟨doc, r, rfl, rfl, rfl, ?_⟩
-        simp
-      · simp
-    · exact Or.inl rfl
-    · exact Or.inl rfl
+    rw [hg] at hX
+    simp only [] at hX
+    rcases hr : (base st doc).1.receive ((opsUpTo st duid (base st doc).2 e).map (·.op)) with ⟨r, (_ | c | w)⟩ <;>
+      rw [hr] at hX <;> simp only [] at hX
+    · by_cases ha : st.snapshots.any (fun s => s.duid = duid ∧
+          s.sseq = verOf (opsUpTo st duid (base st doc).2 e) (base st doc).2) = true
+      · rw [if_pos ha] at hX; exact Or.inl hX.symm
+      · rw [if_neg ha] at hX
+        exact Or.inr ⟨doc, r, rfl, hr, by simpa using ha, hX.symm⟩
+    · exact Or.inl hX.symm
+    · exact Or.inl hX.symm
 
 end SN
 
